@@ -658,9 +658,17 @@ func (x *XRefParser) ParseAllXRefs() ([]*XRefTable, error) {
 
 	tables := []*XRefTable{mainTable}
 
-	// Parse previous XRefs
+	// Parse previous XRefs. A /Prev chain that revisits an offset is a cycle:
+	// stop instead of following it forever.
+	seen := map[int64]bool{x.startPos: true}
 	currentTable := mainTable
 	for {
+		if prev, ok := currentTable.Trailer.Get("Prev").(Int); ok {
+			if seen[int64(prev)] {
+				return nil, fmt.Errorf("cross-reference /Prev chain loops at offset %d", int64(prev))
+			}
+			seen[int64(prev)] = true
+		}
 		prevTable, err := x.ParsePrevXRef(currentTable)
 		if err != nil {
 			return nil, fmt.Errorf("failed to parse prev xref: %w", err)
